@@ -37,6 +37,10 @@ def handle : List Sx → Sx
     match decChars tbl, decPairs obj with
     | some tb, some kv => sxChars (Csv.importJsonObj tb kv)
     | _, _ => .atom "bad-request"
+  | [.atom "validate", cols, t] =>
+    match decStrList cols, decChars t with
+    | some cs, some tx => sxBool (Csv.validateHeader cs tx)
+    | _, _ => .atom "bad-request"
   | [.atom "scan", t] =>
     match decChars t with
     | some cs => encScan (scan cs)
